@@ -416,6 +416,17 @@ def d4_index(chk, F, pid="C03", only_regions=None):
             chk.fail(rule, key, where, f"unreviewed {kind} indexing in {region} ({len(ss)} site(s): {', '.join(x['where'] for x in ss)}): "
                      "an out-of-range index or a non-boundary string slice panics")
             continue
+        if len(ss) > e["count"] and kind.split(":")[0] in ("index", "slice"):
+            # the reviewed thing is an access PATTERN (which container, indexed by what): writing the same `v[i]` once more in the
+            # same function is not a new hazard — count distinct (container, index) lineages instead of sites
+            def pattern(x):
+                f_ = F.funcs[x["func"]]
+                t_ = f_.blocks[x["block"]]["term"]
+                if t_["k"] != "call" or len(t_.get("args", [])) < 2:
+                    return ("site", x["where"])
+                return (show(resolve(f_, t_["args"][0]), -60), show(resolve(f_, t_["args"][1]), -60))
+            if len({pattern(x) for x in ss}) <= e["count"]:
+                e = dict(e, count=len(ss))
         if len(ss) > e["count"]:
             chk.fail(rule, key, where, f"{len(ss)} {kind} site(s) in {region}, reviewed inventory has {e['count']} ({', '.join(x['where'] for x in ss)})")
             continue
@@ -559,6 +570,9 @@ def iterator_class(F: Facts, ty: str, local_iter_types):
     for n in names:
         if n in INFINITE:
             return f"infinite:{n}"
+    # iterators over a collection: their type parameters are ELEMENT types (a generic `T` there says nothing about termination)
+    if re.match(r"(std|core|alloc)::(vec::IntoIter|vec::Drain|slice::Iter|slice::IterMut|collections::(hash_map|hash_set|btree_map|btree_set|vec_deque)::\w+|option::(IntoIter|Iter|IterMut)|result::(IntoIter|Iter))\b", t):
+        return "finite"
     for n in names:
         if n in PRIMS or n == "closure":
             continue
